@@ -16,7 +16,9 @@
 (*                             harness with the cache off; `nc` is the     *)
 (*                             number of distinct cores in the list the    *)
 (*                             function was given                          *)
-(*   core q ids                FunctionContext.append_unsat_core           *)
+(*   core q ids truth          FunctionContext.append_unsat_core; `truth` = *)
+(*                             solver run by the harness on the assertions *)
+(*                             the core names, alone                       *)
 (*   done q                    _solve_end_to_end_callback returned         *)
 (*   endtest                   run_test returned                           *)
 (* `check` and `core` are linearised by a lock of the recorder.            *)
@@ -111,7 +113,8 @@ WhyCore(e) ==
     ELSE LET q == Q(e.q, "solving") IN
          IF SeqSet(e.ids) = {} THEN "core-empty"
          ELSE IF ~ (SeqSet(e.ids) \subseteq DOMAIN q.ids) THEN "core-not-subset"
-         ELSE IF ~ Unsat(ConsOf(q, SeqSet(e.ids))) THEN "core-not-unsat"
+         ELSE IF e.truth = "sat" THEN "core-not-unsat"
+         ELSE IF ~ Unsat(ConsOf(q, SeqSet(e.ids))) THEN "core-not-in-family"
          ELSE "ok"
 
 WhyNext ==
